@@ -146,6 +146,8 @@ func errKind(err error) string {
 		return "wrapped"
 	case err == sim.ErrWrappedEOF:
 		return "wrapped-EOF"
+	case err == sim.ErrTimeout:
+		return "timeout"
 	}
 	if _, ok := err.(*sim.PtrError); ok {
 		return "pointer-typed"
